@@ -3,6 +3,7 @@ Channel `parse`: model column = the delivery protocol on the parser model (histo
 pieces, end of input); spec column = whole-text parse + `Spec.Unfinished` per prefix.
 -/
 import ZygoVerif.Model.Parser
+import ZygoVerif.Model.Abandon
 import ZygoVerif.Spec.Unfinished
 import ZygoVerif.Driver.Proto
 import ZygoVerif.Driver.Lex
@@ -97,6 +98,110 @@ def lastValue (es : List Sexp) : String :=
   | some e => canon e
   | none => "nil"
 
+/-! ### ops `h` and `ei`: the parser driven call by call (`Model/Abandon.PSt`) -/
+
+def route? : String → Option Route
+  | "r" => some .resetAdd
+  | "n" => some .resetNew
+  | "s" => some .stopResetAdd
+  | "t" => some .stopResetNew
+  | "S" => some .stopNew
+  | "R" => some .resetAddLexerFirst     -- experiments with the other statement order only
+  | "N" => some .resetNewLexerFirst
+  | _ => none
+
+structure HEntry where
+  route : Route
+  eof : Bool
+  again : Nat
+  txt : List Char
+  queued : Option (List Char)
+
+def hEntry? (e : String) : Option HEntry :=
+  match e.splitOn ":" with
+  | [r, m, a, t] => do
+    let r ← route? r
+    let eof ← (if m == "w" then some true else if m == "a" then some false else none)
+    let a ← a.toNat?
+    let t ← toChars? t
+    if r == .stopNew then none else pure ⟨r, eof, a, t, none⟩
+  | [r, m, a, t, q] => do
+    let r ← route? r
+    let eof ← (if m == "w" then some true else if m == "a" then some false else none)
+    let a ← a.toNat?
+    let t ← toChars? t
+    let q ← toChars? q
+    if r == .stopNew then none else pure ⟨r, eof, a, t, some q⟩
+  | _ => none
+
+def hEntries? (hs : String) : Option (List HEntry) :=
+  if hs == "-" then some [] else (hs.splitOn "/").mapM hEntry?
+
+def callParseTokens (F : Nat) (p : PSt) : Nat → PSt
+  | 0 => p
+  | n + 1 => callParseTokens F (p.parseTokens F).2.2 n
+
+def runHEntry (F : Nat) (p : PSt) (e : HEntry) : PSt :=
+  let p1 := p.start e.route e.txt
+  let p2 := if e.eof then p1.endInput else p1
+  let p3 := callParseTokens F p2 (e.again + 1)
+  match e.queued with
+  | some q => p3.newInput q
+  | none => p3
+
+def resultLine (r : Result) : String :=
+  showStatuses (r.trace ++ [r.status]) ++ " | " ++ canonList r.exprs
+
+def handleH (h r c : String) : String :=
+  match hEntries? h, route? r, ((c.splitOn "/").mapM toChars?) with
+  | some es, some route, some cs =>
+    let total := (es.map fun e => e.txt.length + (e.queued.getD []).length).sum + cs.flatten.length
+    let F := 4 * total + 16
+    let p := es.foldl (runHEntry F) PSt.fresh
+    let m := resultLine (p.parseBy F route cs).1
+    if route.isReset then
+      -- the same text on the delivery model of `Model/Parser` (pieces known in advance): the two
+      -- interpreters of the protocol must agree (`Proofs/Abandon`)
+      let m2 := resultLine (parseChunks cs)
+      let m := if m == m2 then m else s!"MODELS-DISAGREE stepwise[{m}] run[{m2}]"
+      s!"{m}\t{specAnswer cs}"
+    else s!"{m}\t-"
+  | _, _, _ => "bad-op\t-"
+
+/-- interpreter-level history entry: `E`/`L` = LoadStream (ResetAddNewInput, EndInput,
+ParseTokens); `R` = the `read` builtin (the same, then the range loop is left after the first
+reply: the iterator unwinds at once); `P` = ParseFile (Reset, NewInput, EndInput, ParseTokens);
+`C` = Clear (does not touch the parser) -/
+def runIEntry (F : Nat) (p : PSt) (e : String) : Option PSt :=
+  match e.toList with
+  | k :: ':' :: cs =>
+    match toChars? (String.ofList cs) with
+    | none => none
+    | some txt =>
+      if k == 'E' || k == 'L' then some (((p.resetAddNewInput txt).endInput).parseTokens F).2.2
+      else if k == 'R' then some ((((p.resetAddNewInput txt).endInput).parseTokens F).2.2).stop
+      else if k == 'P' then some ((((p.reset).newInput txt).endInput).parseTokens F).2.2
+      else if k == 'C' then some p
+      else none
+  | _ => none
+
+def handleEi (h x t : String) : String :=
+  match toChars? t with
+  | none => "bad-op\t-"
+  | some txt =>
+    let es := if h == "-" then [] else h.splitOn "/"
+    let F := 4 * ((es.map String.length).sum + txt.length) + 16
+    let p? := es.foldl (fun (p : Option PSt) e => p.bind fun p => runIEntry F p e) (some PSt.fresh)
+    match p? with
+    | none => "bad-op\t-"
+    | some p =>
+      if x == "1" then "twin=same\ttwin=same" else
+      let (st, ex, _) := ((p.resetAddNewInput txt).endInput).parseTokens F
+      let m := if st == .done then lastValue ex else "err"
+      let r := parseChunks [txt]
+      let s := if r.status == .done then lastValue r.exprs else "err"
+      s!"v={m} twin=same\tv={s} twin=same"
+
 def handle (toks : List String) : String :=
   match toks with
   | ["ev", c] =>
@@ -106,6 +211,14 @@ def handle (toks : List String) : String :=
       let a := if r.status == .done then lastValue r.exprs else "err"
       s!"{a}\t{a}"
     | none => "bad-op\t-"
+  | ["h", h, r, c] =>
+    if h.startsWith "H=" && r.startsWith "R=" && c.startsWith "C=" then
+      handleH (h.drop 2).toString (r.drop 2).toString (c.drop 2).toString
+    else "bad-op\t-"
+  | ["ei", h, x, t] =>
+    if h.startsWith "H=" && x.startsWith "X=" && t.startsWith "T=" then
+      handleEi (h.drop 2).toString (x.drop 2).toString (t.drop 2).toString
+    else "bad-op\t-"
   | ["p", h, c] =>
     if h.startsWith "H=" && c.startsWith "C=" then
       let hs := (h.drop 2).toString
